@@ -227,7 +227,7 @@ class Geno(Relation):
     coq_case_type = "gcase"
     coq_model = "model_geno"
     coq_imports = ["GenoTable", "C13_Model", "C12_Model"]
-    budget = {"quick": 400, "thorough": 6000}
+    budget = {"quick": 350, "thorough": 6000}
     max_cases_per_shard = 60
     max_chars_per_shard = 80_000
     anchors = [
@@ -580,7 +580,7 @@ class Pheno(Relation):
     coq_case_type = "pcase"
     coq_model = "model_pheno"
     coq_imports = ["GenoTable", "C13_Model", "C12_Model"]
-    budget = {"quick": 400, "thorough": 6000}
+    budget = {"quick": 300, "thorough": 6000}
     max_cases_per_shard = 100
     max_chars_per_shard = 80_000
     anchors = [
@@ -852,7 +852,7 @@ class Haps(Relation):
     coq_case_type = "hcase"
     coq_model = "model_haps"
     coq_imports = ["GenoTable", "C13_Model", "C12_Model"]
-    budget = {"quick": 400, "thorough": 6000}
+    budget = {"quick": 300, "thorough": 6000}
     max_cases_per_shard = 100
     max_chars_per_shard = 80_000
     anchors = [
